@@ -374,6 +374,37 @@ pub fn run(cx: &mut Cx) {
                 let r = guard(|| (job(&plain).map_err(|e| e.to_string()), job(&opt).map_err(|e| e.to_string())));
                 cx.evals(2);
                 cx.count("differential_renders", 1);
+                // a differential verdict needs a deterministic subject: when the two sides disagree, each side is
+                // rendered five more times; if one of them does not even agree with itself (say, a loop over a map whose
+                // order changes from render to render) the difference cannot be laid at the pass's door. That is C18's
+                // business (renders are repeatable), and it is counted here, not reported.
+                let disagree = match &r {
+                    Ok((Ok(x), Ok(y))) => x != y,
+                    Ok((a, b)) => a.is_ok() != b.is_ok(),
+                    Err(_) => false,
+                };
+                if disagree {
+                    let again = guard(|| {
+                        let mut pa = std::collections::BTreeSet::new();
+                        let mut po = std::collections::BTreeSet::new();
+                        for _ in 0..5 {
+                            pa.insert(job(&plain).map_err(|_| ()));
+                            po.insert(job(&opt).map_err(|_| ()));
+                        }
+                        (pa, po)
+                    });
+                    cx.evals(10);
+                    if let (Ok((pa, po)), Ok((a, b))) = (&again, &r) {
+                        let mut pa = pa.clone();
+                        let mut po = po.clone();
+                        pa.insert(a.clone().map_err(|_| ()));
+                        po.insert(b.clone().map_err(|_| ()));
+                        if pa.len() > 1 || po.len() > 1 {
+                            cx.count("nondeterministic_subjects_skipped", 1);
+                            continue;
+                        }
+                    }
+                }
                 match r {
                     Ok((Ok(x), Ok(y))) => {
                         cx.cell(format!("diff|{fam}|ok"));
